@@ -216,6 +216,48 @@ func checkC05(c *Check) {
 	importsInTextOrder(c, "IMPORTS-IN-TEXT-ORDER")
 	flattenResultKept(c, "FLATTEN-RESULT-KEPT")
 
+	collectorSharing(c, ic)
+	// 5. join
+	nGo := 0
+	for _, f := range p.RepoFuncs() {
+		if fnPkgPath(f) != p.Pkg(parsePkg).PkgPath {
+			continue
+		}
+		eachInstr(f, func(_ *ssa.BasicBlock, i ssa.Instruction) {
+			if _, ok := isGroupCall(i, "Go"); ok {
+				nGo++
+				wait := func(x ssa.Instruction) bool { _, ok := isGroupCall(x, "Wait"); return ok }
+				if ret, bad := reachAvoiding(i, isReturn, wait); bad {
+					c.Flagf("JOIN", fnName(f)+"|Go joined by Wait", p.pos(i.Pos()), "a path from Group.Go reaches the return at %s without Group.Wait: the function returns while imports are still being fetched", p.pos(ret.Pos()))
+				} else {
+					c.Okf("JOIN", fnName(f)+"|Go joined by Wait", p.pos(i.Pos()), "every path from Group.Go to a return passes Group.Wait")
+				}
+			}
+			if g, ok := i.(*ssa.Go); ok {
+				c.Flagf("JOIN", fnName(f)+"|bare go statement", p.pos(g.Pos()), "goroutine started without errgroup join on the compile pipeline")
+			}
+		})
+	}
+	c.Counts["errgroup_go_sites"] = nGo
+	// the Wait error must be checked: handled under C06.
+
+	// 6. flatten
+	c05Flatten(c, ic)
+	// 7. canonical keys
+	c05Canon(c, ic)
+	// 8. depth
+	c05Depth(c, ic)
+}
+
+// collectorSharing: the rules on the file table shared by the goroutines of one
+// closure walk — claim before read, test and claim in one critical section,
+// every access under the mutex, unlocked readers only after the join, and no
+// field read in the already-claimed branch that the claimer still writes.
+// Claimed under C05 (each file once) and C07 (no data race, no dependence of the
+// model on the schedule).
+func collectorSharing(c *Check, ic *importClosure) {
+	p := c.P
+	col := ic.collector
 	// locate read, claim, lookup
 	var read ssa.CallInstruction
 	eachCall(col, func(cl ssa.CallInstruction) {
@@ -362,36 +404,6 @@ func checkC05(c *Check) {
 	} else {
 		c05Publication(c, ic, claims, lookups)
 	}
-	// 5. join
-	nGo := 0
-	for _, f := range p.RepoFuncs() {
-		if fnPkgPath(f) != p.Pkg(parsePkg).PkgPath {
-			continue
-		}
-		eachInstr(f, func(_ *ssa.BasicBlock, i ssa.Instruction) {
-			if _, ok := isGroupCall(i, "Go"); ok {
-				nGo++
-				wait := func(x ssa.Instruction) bool { _, ok := isGroupCall(x, "Wait"); return ok }
-				if ret, bad := reachAvoiding(i, isReturn, wait); bad {
-					c.Flagf("JOIN", fnName(f)+"|Go joined by Wait", p.pos(i.Pos()), "a path from Group.Go reaches the return at %s without Group.Wait: the function returns while imports are still being fetched", p.pos(ret.Pos()))
-				} else {
-					c.Okf("JOIN", fnName(f)+"|Go joined by Wait", p.pos(i.Pos()), "every path from Group.Go to a return passes Group.Wait")
-				}
-			}
-			if g, ok := i.(*ssa.Go); ok {
-				c.Flagf("JOIN", fnName(f)+"|bare go statement", p.pos(g.Pos()), "goroutine started without errgroup join on the compile pipeline")
-			}
-		})
-	}
-	c.Counts["errgroup_go_sites"] = nGo
-	// the Wait error must be checked: handled under C06.
-
-	// 6. flatten
-	c05Flatten(c, ic)
-	// 7. canonical keys
-	c05Canon(c, ic)
-	// 8. depth
-	c05Depth(c, ic)
 }
 
 func c05Publication(c *Check, ic *importClosure, claims []*ssa.MapUpdate, lookups []*ssa.Lookup) {
